@@ -289,17 +289,79 @@ fn oracle_dim(b: &[u8]) -> Option<String> {
     }
 }
 
-fn impl_dim(b: &[u8]) -> String {
-    match guarded(|| calamine::verif_hooks::xlsx::get_dimension(b)) {
+/// `get_dimension` on a reference text. `None`: the case cannot be evaluated in this build.
+#[cfg(feature = "hooks")]
+fn impl_dim(b: &[u8]) -> Option<String> {
+    Some(match guarded(|| calamine::verif_hooks::xlsx::get_dimension(b)) {
         Ok(Ok((s, e))) => format!("ok {}", show_rect(s, e)),
         Ok(Err(e)) => err_tag(&e),
         Err(_) => "panic".into(),
+    })
+}
+
+/// Without the hooks the same function is reached through the public API: a one-sheet workbook whose only
+/// `<mergeCell ref>` is the text, read by `load_merged_regions` (which returns `get_dimension`'s result or
+/// error as it is). Only texts that can stand verbatim in an XML attribute are expressible that way.
+#[cfg(not(feature = "hooks"))]
+fn impl_dim(b: &[u8]) -> Option<String> {
+    if !b.iter().all(|c| (0x20..0x7f).contains(c) && !b"&<>\"'".contains(c)) {
+        return None;
     }
+    let text = std::str::from_utf8(b).ok()?;
+    let mut book = XlsxBook::new();
+    let mut sh = XlsxSheet::new("S");
+    sh.extra_after_sheet_data = format!("<mergeCells count=\"1\"><mergeCell ref=\"{text}\"/></mergeCells>");
+    book.sheets.push(sh);
+    let bytes = book.build(&Layout::plain()).bytes;
+    Some(match guarded(|| {
+        let mut wb: Xlsx<_> = Xlsx::new(Cursor::new(bytes)).map_err(|e| format!("open-err:{e:?}"))?;
+        Ok::<_, String>(match wb.load_merged_regions() {
+            Ok(()) => match wb.merged_regions().first() {
+                Some((_, _, d)) => format!("ok {}", show_rect(d.start, d.end)),
+                None => "no-region".to_string(),
+            },
+            Err(e) => err_tag(&e),
+        })
+    }) {
+        Ok(Ok(s)) => s,
+        Ok(Err(e)) => e,
+        Err(_) => "panic".into(),
+    })
+}
+
+/// xls `parse_merge_cells` on a MERGEDCELLS payload
+#[cfg(feature = "hooks")]
+fn impl_xlsmc(b: &[u8]) -> Option<Result<Result<Vec<((u32, u32), (u32, u32))>, String>, String>> {
+    Some(guarded(|| calamine::verif_hooks::xls::c17_parse_merge_cells(b)))
+}
+
+/// Without the hooks: a one-sheet workbook whose sheet substream holds one MERGEDCELLS record with the payload
+/// (payloads that fit a BIFF8 record only); `Xls::new` fails with the function's error, else the regions are read back.
+#[cfg(not(feature = "hooks"))]
+fn impl_xlsmc(b: &[u8]) -> Option<Result<Result<Vec<((u32, u32), (u32, u32))>, String>, String>> {
+    if b.len() > xlsw::MAX_REC {
+        return None;
+    }
+    let mut book = XlsBook::new();
+    let mut sh = XlsSheet::new("S");
+    sh.cells.push(XlsCell::raw(xlsw::MERGECELLS, b.to_vec()));
+    book.sheets.push(sh);
+    let bytes = book.to_bytes_plain(&mut Rng::new(1));
+    Some(guarded(|| {
+        let wb: Xls<_> = Xls::new(Cursor::new(bytes)).map_err(|e| format!("{e:?}"))?;
+        Ok(wb.worksheet_merge_cells("S").unwrap_or_default().iter().map(|d| (d.start, d.end)).collect())
+    }))
 }
 
 fn eval_dim(b: &[u8], drv: &mut Driver, mode: &str) -> Outcome {
     let mut out = Outcome::default();
-    let imp = impl_dim(b);
+    let imp = match impl_dim(b) {
+        Some(i) => i,
+        None => {
+            out.counters.push("dim.skipped_without_hooks".into());
+            return out;
+        }
+    };
     let model = drv.ask(&format!("dim {mode} {}", hex(b)));
     let exp = oracle_dim(b);
     out.nontrivial = exp.is_some();
@@ -341,7 +403,14 @@ fn oracle_xlsmc(b: &[u8]) -> Option<String> {
 
 fn eval_xlsmc(b: &[u8], drv: &mut Driver) -> Outcome {
     let mut out = Outcome::default();
-    let imp = match guarded(|| calamine::verif_hooks::xls::c17_parse_merge_cells(b)) {
+    let res = match impl_xlsmc(b) {
+        Some(r) => r,
+        None => {
+            out.counters.push("xlsmc.skipped_without_hooks".into());
+            return out;
+        }
+    };
+    let imp = match res {
         Ok(Ok(l)) => format!("ok {}", show_rects(&l)),
         // `Len { expected, found, typ: "merge cells" }` (Debug text from the hook) → `err:Len:merge cells`
         Ok(Err(e)) => match (e.starts_with("Len"), e.find("typ: \"")) {
@@ -1891,8 +1960,8 @@ fn main() {
     let args = Args::parse();
     let mut drv = Driver::spawn(&args.driver);
     // which arithmetic does the tree have (ledger D30-a / D30-c, planned fix 0027)?
-    let sat_arith = !impl_dim(b"A99999999999").starts_with("panic");
-    let sat_dim = !impl_dim(b"B2:A1").starts_with("panic");
+    let sat_arith = !impl_dim(b"A99999999999").unwrap_or_default().starts_with("panic");
+    let sat_dim = !impl_dim(b"B2:A1").unwrap_or_default().starts_with("panic");
     let mode = format!("{}{}", if sat_arith { 's' } else { 'c' }, if sat_dim { 's' } else { 'c' });
     let mut rep = Report::new(
         "C17",
@@ -1924,6 +1993,15 @@ fn main() {
         if sat_dim { "saturating" } else { "checked (panics under overflow-checks)" }
     ));
     rep.count(&format!("mode.{mode}"));
+    if !cfg!(feature = "hooks") {
+        rep.notes.push(
+            "built without verif-hooks: no stage skipped; the unit stages get_dimension / xls parse_merge_cells are driven through \
+             generated one-region files (Xlsx::load_merged_regions, Xls::new + worksheet_merge_cells); reference texts that cannot \
+             stand verbatim in an XML attribute and payloads above 8224 bytes are skipped (counters *.skipped_without_hooks)"
+                .into(),
+        );
+        rep.count("built_without_hooks");
+    }
     // one case evaluated: (case, outcome, microseconds)
     let mut shrunk = 0;
     let mut record = |case: Case, out: Outcome, us: u64, rep: &mut Report, drv: &mut Driver| {
